@@ -8,7 +8,7 @@ PROPERTY = "C13"
 LEVEL = "exploration"
 TECHNIQUE = "property-based testing (Hypothesis): generated DCOPs/assignments vs independent hard/soft accounting"
 LEVEL_TEXT = ("Generated DCOPs (matrix and expression constraints, cost-dict and cost-function variables, external "
-              "variables with values, infinity in {10000, 1e9, inf}) with hard terms planted in constraints and in "
+              "variables with values, infinity in {10000, 1e9, inf, 30}) with hard terms planted in constraints and in "
               "variable costs; complete assignments and strict sub-assignments. Oracle: hard = number of terms equal "
               "to infinity, soft = sum of the others, computed from the case description without pyDCOP; incomplete "
               "assignments must raise ValueError; assignment_cost is compared with the plain sum (with and without "
@@ -22,7 +22,8 @@ ASSUMPTIONS = ["finite costs are ints or dyadic floats (exact sums)"]
 BUDGET = {"quick": {"workers": 8, "examples": 900, "seconds": 40},
           "thorough": {"workers": 16, "examples": 5000, "seconds": 420}}
 
-INFS = [10000, 1000000000.0, "inf"]
+# ... and a finite marker small enough for ordinary soft terms to exceed it: only terms EQUAL to the marker are hard
+INFS = [10000, 1000000000.0, "inf", 30]
 
 
 def _plant(draw, table, inf):
